@@ -88,6 +88,13 @@ func runXor(tier string, shard, shards int, rep *SeqReport) {
 										copy(D0, D)
 										a := A[8+oa : 8+oa+la]
 										b := B[8+ob : 8+ob+lb]
+										// an empty operand is also spelled nil (second pattern: a, third pattern: b)
+										if la == 0 && pi == 1 {
+											a = nil
+										}
+										if lb == 0 && pi == 2 {
+											b = nil
+										}
 										var dst []byte
 										dlo, dhi := 0, 0
 										switch alias {
@@ -434,7 +441,7 @@ func runXor(tier string, shard, shards int, rep *SeqReport) {
 
 func init() {
 	register(&Check{ID: "C20", Seq: runXor,
-		Rule: "full enumeration: len(a), len(b) in 0..72 (thorough 0..136) independently x start offsets mod 8 of a, b, dst (quick {0,1,3,7}, thorough 0..7) x aliasing {none, dst==a, dst==b} x dst exactly n or n+3 long x 3 content patterns, plus all 256x256 byte values for n<=2, plus operands that are adjacent blocks of one buffer (dst identical to one input, the other input touching it or 1/8 bytes away), plus inputs that are overlapping views of one buffer (same start with different lengths, or b starting 1/8 bytes into a), plus large operands (lengths p-1, p, p+1, 1.5p for every power of two p = 256..65536, equal and unequal, both aliasings, two alignments, two content patterns); on the implementation this toolchain builds (xor_generic.go) and on xor_old.go compiled with its build constraint lifted; every byte of the three guarded arenas is compared",
+		Rule: "full enumeration: len(a), len(b) in 0..72 (thorough 0..136) independently x start offsets mod 8 of a, b, dst (quick {0,1,3,7}, thorough 0..7) x aliasing {none, dst==a, dst==b} x dst exactly n or n+3 long x 3 content patterns (an empty operand is also spelled nil), plus all 256x256 byte values for n<=2, plus operands that are adjacent blocks of one buffer (dst identical to one input, the other input touching it or 1/8 bytes away), plus inputs that are overlapping views of one buffer (same start with different lengths, or b starting 1/8 bytes into a), plus large operands (lengths p-1, p, p+1, 1.5p for every power of two p = 256..65536, equal and unequal, both aliasings, two alignments, two content patterns); on the implementation this toolchain builds (xor_generic.go) and on xor_old.go compiled with its build constraint lifted; every byte of the three guarded arenas is compared",
 		Assumptions: []string{"xor_arm.go/.s cannot execute on amd64 and no emulator is installed: the ARM assembly is not covered",
 			"contents come from 6 patterns incl. zero and all-ones words (XOR is bitwise-independent) plus all byte pairs for n<=2"}})
 }
